@@ -34,6 +34,16 @@ CLAIMED = {
         design="4/C02",
         note="Trusted: Coq kernel; in-process harness (direct wiring / real PB in memory, virtual clock, scripted coin); sequential semantics (quiescent points only); tableau shape facts are not part of this invariant.",
         technique="Coq proof (inductive invariant preserved by every case of every operation, induction over operation lists) + vm_compute correspondence + object-graph oracle"),
+    "C03": dict(
+        text="PARTIAL. Coq theorems over Model L (labelled transition system at the granularity of the code's yield points: lock request, poller acquisition, remote delivery, timer expiry, release): ownership invariant, mutual exclusion for lock-disciplined (two-phase) runs, a held lock is held by its owner and released only by it; `C03_serializable_refuted`/`C03_foreign_release`: the _lock_nodes timeout path releases a lock owned by another operation (recorded 14-event trace of the real code, known finding D6). Not proved: data-level two-phase serializability (Model L carries no bookkeeping; statement kept in Conc/Serial.v). Tie: every lock-event trace recorded from the real code under a seeded scheduler over the real Perspective Broker (~900 schedules quick) must be accepted event by event by the LTS (vm_compute), completed operations and held locks must agree; oracle: results, final dump and joint state equal those of SOME sequential order respecting each client's order.",
+        design="9.5/C03 (notes/C03.md)",
+        note="Trusted: Coq kernel; scheduler harness (iosim pumps, virtual clock, seeded back-off / timer ties / host order, lock taps by wrapping methods from outside); qubit-level locks are judged by the Python oracle only. Known findings: D6 (_lock_nodes timeout with pending request), D23 (shared handle consumed by a concurrent operation).",
+        technique="Coq proof (invariants of an LTS, refutation traces) + trace acceptance by vm_compute + serializability oracle over explored schedules"),
+    "C04": dict(
+        text="Coq theorems over Model L: any number of single-lock operations complete under EVERY schedule within a bounded number of events and leave all locks free; lock-disciplined runs are bounded; `_refuted` family proved by stuck-state invariants (not bounded search): a send addressed to the issuing node hangs holding its lock (D4), crossing / cyclic sends and any wait-for knot of sends deadlock (D5), the _lock_nodes timeout path orphans a lock for ever (D6) — listed known findings. Tie: as C03 (trace acceptance); oracle: every operation's Deferred fires within a virtual-time budget and no node or qubit lock is held at quiescence; any hang outside the listed trigger classes is a VIOLATION with the schedule as replay.",
+        design="9.5/C04 (notes/C04.md)",
+        note="Trusted: as C03. Liveness of _lock_nodes beyond D6 is neither proved nor refuted (random back-off); the explored schedules are a test of it.",
+        technique="Coq proof (completion by measure, deadlock by invariant) + trace acceptance by vm_compute + completion/lock oracle over explored schedules"),
     "C05": dict(
         text="Coq theorems over Model V (sequential semantics of the virtual-node network) for every state and operation: a refused operation returns the whole network state unchanged (refusal_atomic), "
              "iff-tables for every refusal cause, no undocumented failure; model tied to the code by step-by-step dump equality (bookkeeping + exact generator matrices + returned value / exception class) on random and scripted histories.",
